@@ -164,6 +164,9 @@ func CmdCheck(args []string) int {
 	var samples []map[string]interface{}
 	var under []string
 	notes := map[string]bool{}
+	for n := range e.defOnlyUsed {
+		notes["definitional contract only (purity checked syntactically, the body is not verified, its result is an uninterpreted function of its arguments): "+n] = true
+	}
 	deadCovers := map[string][]string{}
 	for _, v := range vcs {
 		under = append(under, v.name)
